@@ -468,6 +468,12 @@ func (s *c13Sess) honest(r *mon.R) bool {
 		}
 	}
 	pub := s.pubPoly(o)
+	// a verifier that first derived (and, for a negative check, altered) an evaluation of the commitment polynomial must get
+	// the true value when it evaluates the same polynomial object again
+	if n > 0 {
+		e := pub.Eval(o.enc[0].S.I)
+		e.V.Add(e.V, g.Point().Base())
+	}
 	s.sH = make([]kyber.Point, n)
 	for i := range s.sH {
 		s.sH[i] = pub.Eval(o.enc[i].S.I).V
